@@ -1,7 +1,29 @@
 
+(** val negb : bool -> bool **)
+
+let negb = function
+| true -> false
+| false -> true
+
 type nat =
 | O
 | S of nat
+
+(** val option_map : ('a1 -> 'a2) -> 'a1 option -> 'a2 option **)
+
+let option_map f = function
+| Some a -> Some (f a)
+| None -> None
+
+(** val fst : ('a1 * 'a2) -> 'a1 **)
+
+let fst = function
+| (x, _) -> x
+
+(** val snd : ('a1 * 'a2) -> 'a2 **)
+
+let snd = function
+| (_, y) -> y
 
 (** val length : 'a1 list -> nat **)
 
@@ -16,18 +38,6 @@ let rec app l m =
   | [] -> m
   | a :: l1 -> a :: (app l1 m)
 
-type comparison =
-| Eq
-| Lt
-| Gt
-
-(** val compOpp : comparison -> comparison **)
-
-let compOpp = function
-| Eq -> Eq
-| Lt -> Gt
-| Gt -> Lt
-
 module Coq__1 = struct
  (** val add : nat -> nat -> nat **)
  let rec add n0 m =
@@ -36,6 +46,99 @@ module Coq__1 = struct
    | S p -> S (add p m)
 end
 include Coq__1
+
+(** val mul : nat -> nat -> nat **)
+
+let rec mul n0 m =
+  match n0 with
+  | O -> O
+  | S p -> add m (mul p m)
+
+(** val sub : nat -> nat -> nat **)
+
+let rec sub n0 m =
+  match n0 with
+  | O -> n0
+  | S k -> (match m with
+            | O -> n0
+            | S l -> sub k l)
+
+module Nat =
+ struct
+  (** val sub : nat -> nat -> nat **)
+
+  let rec sub n0 m =
+    match n0 with
+    | O -> n0
+    | S k -> (match m with
+              | O -> n0
+              | S l -> sub k l)
+
+  (** val eqb : nat -> nat -> bool **)
+
+  let rec eqb n0 m =
+    match n0 with
+    | O -> (match m with
+            | O -> true
+            | S _ -> false)
+    | S n' -> (match m with
+               | O -> false
+               | S m' -> eqb n' m')
+
+  (** val leb : nat -> nat -> bool **)
+
+  let rec leb n0 m =
+    match n0 with
+    | O -> true
+    | S n' -> (match m with
+               | O -> false
+               | S m' -> leb n' m')
+
+  (** val ltb : nat -> nat -> bool **)
+
+  let ltb n0 m =
+    leb (S n0) m
+
+  (** val max : nat -> nat -> nat **)
+
+  let rec max n0 m =
+    match n0 with
+    | O -> m
+    | S n' -> (match m with
+               | O -> n0
+               | S m' -> S (max n' m'))
+
+  (** val min : nat -> nat -> nat **)
+
+  let rec min n0 m =
+    match n0 with
+    | O -> O
+    | S n' -> (match m with
+               | O -> O
+               | S m' -> S (min n' m'))
+
+  (** val divmod : nat -> nat -> nat -> nat -> nat * nat **)
+
+  let rec divmod x y q u =
+    match x with
+    | O -> (q, u)
+    | S x' ->
+      (match u with
+       | O -> divmod x' y (S q) y
+       | S u' -> divmod x' y q u')
+
+  (** val div : nat -> nat -> nat **)
+
+  let div x y = match y with
+  | O -> y
+  | S y' -> fst (divmod x y' O y')
+
+  (** val modulo : nat -> nat -> nat **)
+
+  let modulo x = function
+  | O -> x
+  | S y' -> sub y' (snd (divmod x y' O y'))
+ end
 
 (** val nth : nat -> 'a1 list -> 'a1 -> 'a1 **)
 
@@ -60,6 +163,15 @@ let rec map f = function
 | [] -> []
 | a :: t -> (f a) :: (map f t)
 
+(** val firstn : nat -> 'a1 list -> 'a1 list **)
+
+let rec firstn n0 l =
+  match n0 with
+  | O -> []
+  | S n1 -> (match l with
+             | [] -> []
+             | a :: l0 -> a :: (firstn n1 l0))
+
 (** val skipn : nat -> 'a1 list -> 'a1 list **)
 
 let rec skipn n0 l =
@@ -68,18 +180,6 @@ let rec skipn n0 l =
   | S n1 -> (match l with
              | [] -> []
              | _ :: l0 -> skipn n1 l0)
-
-(** val seq : nat -> nat -> nat list **)
-
-let rec seq start = function
-| O -> []
-| S len0 -> start :: (seq (S start) len0)
-
-(** val repeat : 'a1 -> nat -> 'a1 list **)
-
-let rec repeat x = function
-| O -> []
-| S k -> x :: (repeat x k)
 
 type positive =
 | XI of positive
@@ -143,20 +243,6 @@ module Pos =
        | XO q -> XO (succ q)
        | XH -> XI XH)
 
-  (** val pred_double : positive -> positive **)
-
-  let rec pred_double = function
-  | XI p -> XI (XO p)
-  | XO p -> XI (pred_double p)
-  | XH -> XH
-
-  (** val pred_N : positive -> n **)
-
-  let pred_N = function
-  | XI p -> Npos (XO p)
-  | XO p -> Npos (pred_double p)
-  | XH -> N0
-
   (** val mul : positive -> positive -> positive **)
 
   let rec mul x y =
@@ -164,50 +250,6 @@ module Pos =
     | XI p -> add y (XO (mul p y))
     | XO p -> XO (mul p y)
     | XH -> y
-
-  (** val iter : ('a1 -> 'a1) -> 'a1 -> positive -> 'a1 **)
-
-  let rec iter f x = function
-  | XI n' -> f (iter f (iter f x n') n')
-  | XO n' -> iter f (iter f x n') n'
-  | XH -> f x
-
-  (** val div2 : positive -> positive **)
-
-  let div2 = function
-  | XI p0 -> p0
-  | XO p0 -> p0
-  | XH -> XH
-
-  (** val div2_up : positive -> positive **)
-
-  let div2_up = function
-  | XI p0 -> succ p0
-  | XO p0 -> p0
-  | XH -> XH
-
-  (** val compare_cont : comparison -> positive -> positive -> comparison **)
-
-  let rec compare_cont r x y =
-    match x with
-    | XI p ->
-      (match y with
-       | XI q -> compare_cont r p q
-       | XO q -> compare_cont Gt p q
-       | XH -> Gt)
-    | XO p ->
-      (match y with
-       | XI q -> compare_cont Lt p q
-       | XO q -> compare_cont r p q
-       | XH -> Gt)
-    | XH -> (match y with
-             | XH -> r
-             | _ -> Lt)
-
-  (** val compare : positive -> positive -> comparison **)
-
-  let compare =
-    compare_cont Eq
 
   (** val eqb : positive -> positive -> bool **)
 
@@ -222,72 +264,6 @@ module Pos =
     | XH -> (match q with
              | XH -> true
              | _ -> false)
-
-  (** val coq_Nsucc_double : n -> n **)
-
-  let coq_Nsucc_double = function
-  | N0 -> Npos XH
-  | Npos p -> Npos (XI p)
-
-  (** val coq_Ndouble : n -> n **)
-
-  let coq_Ndouble = function
-  | N0 -> N0
-  | Npos p -> Npos (XO p)
-
-  (** val coq_lor : positive -> positive -> positive **)
-
-  let rec coq_lor p q =
-    match p with
-    | XI p0 ->
-      (match q with
-       | XI q0 -> XI (coq_lor p0 q0)
-       | XO q0 -> XI (coq_lor p0 q0)
-       | XH -> p)
-    | XO p0 ->
-      (match q with
-       | XI q0 -> XI (coq_lor p0 q0)
-       | XO q0 -> XO (coq_lor p0 q0)
-       | XH -> XI p0)
-    | XH -> (match q with
-             | XO q0 -> XI q0
-             | _ -> q)
-
-  (** val coq_land : positive -> positive -> n **)
-
-  let rec coq_land p q =
-    match p with
-    | XI p0 ->
-      (match q with
-       | XI q0 -> coq_Nsucc_double (coq_land p0 q0)
-       | XO q0 -> coq_Ndouble (coq_land p0 q0)
-       | XH -> Npos XH)
-    | XO p0 ->
-      (match q with
-       | XI q0 -> coq_Ndouble (coq_land p0 q0)
-       | XO q0 -> coq_Ndouble (coq_land p0 q0)
-       | XH -> N0)
-    | XH -> (match q with
-             | XO _ -> N0
-             | _ -> Npos XH)
-
-  (** val ldiff : positive -> positive -> n **)
-
-  let rec ldiff p q =
-    match p with
-    | XI p0 ->
-      (match q with
-       | XI q0 -> coq_Ndouble (ldiff p0 q0)
-       | XO q0 -> coq_Nsucc_double (ldiff p0 q0)
-       | XH -> Npos (XO p0))
-    | XO p0 ->
-      (match q with
-       | XI q0 -> coq_Ndouble (ldiff p0 q0)
-       | XO q0 -> coq_Ndouble (ldiff p0 q0)
-       | XH -> Npos p)
-    | XH -> (match q with
-             | XO _ -> Npos XH
-             | _ -> N0)
 
   (** val iter_op : ('a1 -> 'a1 -> 'a1) -> positive -> 'a1 -> 'a1 **)
 
@@ -311,12 +287,6 @@ module Pos =
 
 module N =
  struct
-  (** val succ_pos : n -> positive **)
-
-  let succ_pos = function
-  | N0 -> XH
-  | Npos p -> Pos.succ p
-
   (** val add : n -> n -> n **)
 
   let add n0 m =
@@ -335,24 +305,6 @@ module N =
                  | N0 -> N0
                  | Npos q -> Npos (Pos.mul p q))
 
-  (** val coq_lor : n -> n -> n **)
-
-  let coq_lor n0 m =
-    match n0 with
-    | N0 -> m
-    | Npos p -> (match m with
-                 | N0 -> n0
-                 | Npos q -> Npos (Pos.coq_lor p q))
-
-  (** val ldiff : n -> n -> n **)
-
-  let ldiff n0 m =
-    match n0 with
-    | N0 -> N0
-    | Npos p -> (match m with
-                 | N0 -> n0
-                 | Npos q -> Pos.ldiff p q)
-
   (** val to_nat : n -> nat **)
 
   let to_nat = function
@@ -368,146 +320,12 @@ module N =
 
 module Z =
  struct
-  (** val double : z -> z **)
-
-  let double = function
-  | Z0 -> Z0
-  | Zpos p -> Zpos (XO p)
-  | Zneg p -> Zneg (XO p)
-
-  (** val succ_double : z -> z **)
-
-  let succ_double = function
-  | Z0 -> Zpos XH
-  | Zpos p -> Zpos (XI p)
-  | Zneg p -> Zneg (Pos.pred_double p)
-
-  (** val pred_double : z -> z **)
-
-  let pred_double = function
-  | Z0 -> Zneg XH
-  | Zpos p -> Zpos (Pos.pred_double p)
-  | Zneg p -> Zneg (XI p)
-
-  (** val pos_sub : positive -> positive -> z **)
-
-  let rec pos_sub x y =
-    match x with
-    | XI p ->
-      (match y with
-       | XI q -> double (pos_sub p q)
-       | XO q -> succ_double (pos_sub p q)
-       | XH -> Zpos (XO p))
-    | XO p ->
-      (match y with
-       | XI q -> pred_double (pos_sub p q)
-       | XO q -> double (pos_sub p q)
-       | XH -> Zpos (Pos.pred_double p))
-    | XH ->
-      (match y with
-       | XI q -> Zneg (XO q)
-       | XO q -> Zneg (Pos.pred_double q)
-       | XH -> Z0)
-
-  (** val add : z -> z -> z **)
-
-  let add x y =
-    match x with
-    | Z0 -> y
-    | Zpos x' ->
-      (match y with
-       | Z0 -> x
-       | Zpos y' -> Zpos (Pos.add x' y')
-       | Zneg y' -> pos_sub x' y')
-    | Zneg x' ->
-      (match y with
-       | Z0 -> x
-       | Zpos y' -> pos_sub y' x'
-       | Zneg y' -> Zneg (Pos.add x' y'))
-
   (** val opp : z -> z **)
 
   let opp = function
   | Z0 -> Z0
   | Zpos x0 -> Zneg x0
   | Zneg x0 -> Zpos x0
-
-  (** val sub : z -> z -> z **)
-
-  let sub m n0 =
-    add m (opp n0)
-
-  (** val mul : z -> z -> z **)
-
-  let mul x y =
-    match x with
-    | Z0 -> Z0
-    | Zpos x' ->
-      (match y with
-       | Z0 -> Z0
-       | Zpos y' -> Zpos (Pos.mul x' y')
-       | Zneg y' -> Zneg (Pos.mul x' y'))
-    | Zneg x' ->
-      (match y with
-       | Z0 -> Z0
-       | Zpos y' -> Zneg (Pos.mul x' y')
-       | Zneg y' -> Zpos (Pos.mul x' y'))
-
-  (** val pow_pos : z -> positive -> z **)
-
-  let pow_pos z0 =
-    Pos.iter (mul z0) (Zpos XH)
-
-  (** val pow : z -> z -> z **)
-
-  let pow x = function
-  | Z0 -> Zpos XH
-  | Zpos p -> pow_pos x p
-  | Zneg _ -> Z0
-
-  (** val compare : z -> z -> comparison **)
-
-  let compare x y =
-    match x with
-    | Z0 -> (match y with
-             | Z0 -> Eq
-             | Zpos _ -> Lt
-             | Zneg _ -> Gt)
-    | Zpos x' -> (match y with
-                  | Zpos y' -> Pos.compare x' y'
-                  | _ -> Gt)
-    | Zneg x' ->
-      (match y with
-       | Zneg y' -> compOpp (Pos.compare x' y')
-       | _ -> Lt)
-
-  (** val leb : z -> z -> bool **)
-
-  let leb x y =
-    match compare x y with
-    | Gt -> false
-    | _ -> true
-
-  (** val ltb : z -> z -> bool **)
-
-  let ltb x y =
-    match compare x y with
-    | Lt -> true
-    | _ -> false
-
-  (** val geb : z -> z -> bool **)
-
-  let geb x y =
-    match compare x y with
-    | Lt -> false
-    | _ -> true
-
-  (** val gtb : z -> z -> bool **)
-
-  let gtb x y =
-    match compare x y with
-    | Gt -> true
-    | _ -> false
 
   (** val eqb : z -> z -> bool **)
 
@@ -546,558 +364,613 @@ module Z =
   let of_N = function
   | N0 -> Z0
   | Npos p -> Zpos p
-
-  (** val pos_div_eucl : positive -> z -> z * z **)
-
-  let rec pos_div_eucl a b =
-    match a with
-    | XI a' ->
-      let (q, r) = pos_div_eucl a' b in
-      let r' = add (mul (Zpos (XO XH)) r) (Zpos XH) in
-      if ltb r' b
-      then ((mul (Zpos (XO XH)) q), r')
-      else ((add (mul (Zpos (XO XH)) q) (Zpos XH)), (sub r' b))
-    | XO a' ->
-      let (q, r) = pos_div_eucl a' b in
-      let r' = mul (Zpos (XO XH)) r in
-      if ltb r' b
-      then ((mul (Zpos (XO XH)) q), r')
-      else ((add (mul (Zpos (XO XH)) q) (Zpos XH)), (sub r' b))
-    | XH -> if leb (Zpos (XO XH)) b then (Z0, (Zpos XH)) else ((Zpos XH), Z0)
-
-  (** val div_eucl : z -> z -> z * z **)
-
-  let div_eucl a b =
-    match a with
-    | Z0 -> (Z0, Z0)
-    | Zpos a' ->
-      (match b with
-       | Z0 -> (Z0, a)
-       | Zpos _ -> pos_div_eucl a' b
-       | Zneg b' ->
-         let (q, r) = pos_div_eucl a' (Zpos b') in
-         (match r with
-          | Z0 -> ((opp q), Z0)
-          | _ -> ((opp (add q (Zpos XH))), (add b r))))
-    | Zneg a' ->
-      (match b with
-       | Z0 -> (Z0, a)
-       | Zpos _ ->
-         let (q, r) = pos_div_eucl a' b in
-         (match r with
-          | Z0 -> ((opp q), Z0)
-          | _ -> ((opp (add q (Zpos XH))), (sub b r)))
-       | Zneg b' -> let (q, r) = pos_div_eucl a' (Zpos b') in (q, (opp r)))
-
-  (** val div : z -> z -> z **)
-
-  let div a b =
-    let (q, _) = div_eucl a b in q
-
-  (** val modulo : z -> z -> z **)
-
-  let modulo a b =
-    let (_, r) = div_eucl a b in r
-
-  (** val div2 : z -> z **)
-
-  let div2 = function
-  | Z0 -> Z0
-  | Zpos p -> (match p with
-               | XH -> Z0
-               | _ -> Zpos (Pos.div2 p))
-  | Zneg p -> Zneg (Pos.div2_up p)
-
-  (** val shiftl : z -> z -> z **)
-
-  let shiftl a = function
-  | Z0 -> a
-  | Zpos p -> Pos.iter (mul (Zpos (XO XH))) a p
-  | Zneg p -> Pos.iter div2 a p
-
-  (** val shiftr : z -> z -> z **)
-
-  let shiftr a n0 =
-    shiftl a (opp n0)
-
-  (** val coq_land : z -> z -> z **)
-
-  let coq_land a b =
-    match a with
-    | Z0 -> Z0
-    | Zpos a0 ->
-      (match b with
-       | Z0 -> Z0
-       | Zpos b0 -> of_N (Pos.coq_land a0 b0)
-       | Zneg b0 -> of_N (N.ldiff (Npos a0) (Pos.pred_N b0)))
-    | Zneg a0 ->
-      (match b with
-       | Z0 -> Z0
-       | Zpos b0 -> of_N (N.ldiff (Npos b0) (Pos.pred_N a0))
-       | Zneg b0 ->
-         Zneg (N.succ_pos (N.coq_lor (Pos.pred_N a0) (Pos.pred_N b0))))
  end
 
-(** val wrap32 : z -> z **)
+(** val split_at : z -> z list -> z list -> z list list * z list **)
 
-let wrap32 z0 =
-  Z.sub
-    (Z.modulo
-      (Z.add z0 (Zpos (XO (XO (XO (XO (XO (XO (XO (XO (XO (XO (XO (XO (XO (XO
-        (XO (XO (XO (XO (XO (XO (XO (XO (XO (XO (XO (XO (XO (XO (XO (XO (XO
-        XH))))))))))))))))))))))))))))))))) (Zpos (XO (XO (XO (XO (XO (XO (XO
-      (XO (XO (XO (XO (XO (XO (XO (XO (XO (XO (XO (XO (XO (XO (XO (XO (XO (XO
-      (XO (XO (XO (XO (XO (XO (XO XH)))))))))))))))))))))))))))))))))) (Zpos
-    (XO (XO (XO (XO (XO (XO (XO (XO (XO (XO (XO (XO (XO (XO (XO (XO (XO (XO
-    (XO (XO (XO (XO (XO (XO (XO (XO (XO (XO (XO (XO (XO
-    XH))))))))))))))))))))))))))))))))
-
-(** val tABLE : z list **)
-
-let tABLE =
-  (Zpos (XI (XO (XO (XO (XO (XO XH))))))) :: ((Zpos (XO (XI (XO (XO (XO (XO
-    XH))))))) :: ((Zpos (XI (XI (XO (XO (XO (XO XH))))))) :: ((Zpos (XO (XO
-    (XI (XO (XO (XO XH))))))) :: ((Zpos (XI (XO (XI (XO (XO (XO
-    XH))))))) :: ((Zpos (XO (XI (XI (XO (XO (XO XH))))))) :: ((Zpos (XI (XI
-    (XI (XO (XO (XO XH))))))) :: ((Zpos (XO (XO (XO (XI (XO (XO
-    XH))))))) :: ((Zpos (XI (XO (XO (XI (XO (XO XH))))))) :: ((Zpos (XO (XI
-    (XO (XI (XO (XO XH))))))) :: ((Zpos (XI (XI (XO (XI (XO (XO
-    XH))))))) :: ((Zpos (XO (XO (XI (XI (XO (XO XH))))))) :: ((Zpos (XI (XO
-    (XI (XI (XO (XO XH))))))) :: ((Zpos (XO (XI (XI (XI (XO (XO
-    XH))))))) :: ((Zpos (XI (XI (XI (XI (XO (XO XH))))))) :: ((Zpos (XO (XO
-    (XO (XO (XI (XO XH))))))) :: ((Zpos (XI (XO (XO (XO (XI (XO
-    XH))))))) :: ((Zpos (XO (XI (XO (XO (XI (XO XH))))))) :: ((Zpos (XI (XI
-    (XO (XO (XI (XO XH))))))) :: ((Zpos (XO (XO (XI (XO (XI (XO
-    XH))))))) :: ((Zpos (XI (XO (XI (XO (XI (XO XH))))))) :: ((Zpos (XO (XI
-    (XI (XO (XI (XO XH))))))) :: ((Zpos (XI (XI (XI (XO (XI (XO
-    XH))))))) :: ((Zpos (XO (XO (XO (XI (XI (XO XH))))))) :: ((Zpos (XI (XO
-    (XO (XI (XI (XO XH))))))) :: ((Zpos (XO (XI (XO (XI (XI (XO
-    XH))))))) :: ((Zpos (XI (XO (XO (XO (XO (XI XH))))))) :: ((Zpos (XO (XI
-    (XO (XO (XO (XI XH))))))) :: ((Zpos (XI (XI (XO (XO (XO (XI
-    XH))))))) :: ((Zpos (XO (XO (XI (XO (XO (XI XH))))))) :: ((Zpos (XI (XO
-    (XI (XO (XO (XI XH))))))) :: ((Zpos (XO (XI (XI (XO (XO (XI
-    XH))))))) :: ((Zpos (XI (XI (XI (XO (XO (XI XH))))))) :: ((Zpos (XO (XO
-    (XO (XI (XO (XI XH))))))) :: ((Zpos (XI (XO (XO (XI (XO (XI
-    XH))))))) :: ((Zpos (XO (XI (XO (XI (XO (XI XH))))))) :: ((Zpos (XI (XI
-    (XO (XI (XO (XI XH))))))) :: ((Zpos (XO (XO (XI (XI (XO (XI
-    XH))))))) :: ((Zpos (XI (XO (XI (XI (XO (XI XH))))))) :: ((Zpos (XO (XI
-    (XI (XI (XO (XI XH))))))) :: ((Zpos (XI (XI (XI (XI (XO (XI
-    XH))))))) :: ((Zpos (XO (XO (XO (XO (XI (XI XH))))))) :: ((Zpos (XI (XO
-    (XO (XO (XI (XI XH))))))) :: ((Zpos (XO (XI (XO (XO (XI (XI
-    XH))))))) :: ((Zpos (XI (XI (XO (XO (XI (XI XH))))))) :: ((Zpos (XO (XO
-    (XI (XO (XI (XI XH))))))) :: ((Zpos (XI (XO (XI (XO (XI (XI
-    XH))))))) :: ((Zpos (XO (XI (XI (XO (XI (XI XH))))))) :: ((Zpos (XI (XI
-    (XI (XO (XI (XI XH))))))) :: ((Zpos (XO (XO (XO (XI (XI (XI
-    XH))))))) :: ((Zpos (XI (XO (XO (XI (XI (XI XH))))))) :: ((Zpos (XO (XI
-    (XO (XI (XI (XI XH))))))) :: ((Zpos (XO (XO (XO (XO (XI
-    XH)))))) :: ((Zpos (XI (XO (XO (XO (XI XH)))))) :: ((Zpos (XO (XI (XO (XO
-    (XI XH)))))) :: ((Zpos (XI (XI (XO (XO (XI XH)))))) :: ((Zpos (XO (XO (XI
-    (XO (XI XH)))))) :: ((Zpos (XI (XO (XI (XO (XI XH)))))) :: ((Zpos (XO (XI
-    (XI (XO (XI XH)))))) :: ((Zpos (XI (XI (XI (XO (XI XH)))))) :: ((Zpos (XO
-    (XO (XO (XI (XI XH)))))) :: ((Zpos (XI (XO (XO (XI (XI XH)))))) :: ((Zpos
-    (XI (XI (XO (XI (XO XH)))))) :: ((Zpos (XI (XI (XI (XI (XO
-    XH)))))) :: [])))))))))))))))))))))))))))))))))))))))))))))))))))))))))))))))
-
-(** val iNV_TABLE : z list **)
-
-let iNV_TABLE =
-  (Zneg XH) :: ((Zneg XH) :: ((Zneg XH) :: ((Zneg XH) :: ((Zneg XH) :: ((Zneg
-    XH) :: ((Zneg XH) :: ((Zneg XH) :: ((Zneg XH) :: ((Zneg XH) :: ((Zneg
-    XH) :: ((Zneg XH) :: ((Zneg XH) :: ((Zneg XH) :: ((Zneg XH) :: ((Zneg
-    XH) :: ((Zneg XH) :: ((Zneg XH) :: ((Zneg XH) :: ((Zneg XH) :: ((Zneg
-    XH) :: ((Zneg XH) :: ((Zneg XH) :: ((Zneg XH) :: ((Zneg XH) :: ((Zneg
-    XH) :: ((Zneg XH) :: ((Zneg XH) :: ((Zneg XH) :: ((Zneg XH) :: ((Zneg
-    XH) :: ((Zneg XH) :: ((Zneg XH) :: ((Zneg XH) :: ((Zneg XH) :: ((Zneg
-    XH) :: ((Zneg XH) :: ((Zneg XH) :: ((Zneg XH) :: ((Zneg XH) :: ((Zneg
-    XH) :: ((Zneg XH) :: ((Zneg XH) :: ((Zpos (XO (XI (XI (XI (XI
-    XH)))))) :: ((Zneg XH) :: ((Zneg XH) :: ((Zneg XH) :: ((Zpos (XI (XI (XI
-    (XI (XI XH)))))) :: ((Zpos (XO (XO (XI (XO (XI XH)))))) :: ((Zpos (XI (XO
-    (XI (XO (XI XH)))))) :: ((Zpos (XO (XI (XI (XO (XI XH)))))) :: ((Zpos (XI
-    (XI (XI (XO (XI XH)))))) :: ((Zpos (XO (XO (XO (XI (XI XH)))))) :: ((Zpos
-    (XI (XO (XO (XI (XI XH)))))) :: ((Zpos (XO (XI (XO (XI (XI
-    XH)))))) :: ((Zpos (XI (XI (XO (XI (XI XH)))))) :: ((Zpos (XO (XO (XI (XI
-    (XI XH)))))) :: ((Zpos (XI (XO (XI (XI (XI XH)))))) :: ((Zneg
-    XH) :: ((Zneg XH) :: ((Zneg XH) :: ((Zneg XH) :: ((Zneg XH) :: ((Zneg
-    XH) :: ((Zneg XH) :: (Z0 :: ((Zpos XH) :: ((Zpos (XO XH)) :: ((Zpos (XI
-    XH)) :: ((Zpos (XO (XO XH))) :: ((Zpos (XI (XO XH))) :: ((Zpos (XO (XI
-    XH))) :: ((Zpos (XI (XI XH))) :: ((Zpos (XO (XO (XO XH)))) :: ((Zpos (XI
-    (XO (XO XH)))) :: ((Zpos (XO (XI (XO XH)))) :: ((Zpos (XI (XI (XO
-    XH)))) :: ((Zpos (XO (XO (XI XH)))) :: ((Zpos (XI (XO (XI
-    XH)))) :: ((Zpos (XO (XI (XI XH)))) :: ((Zpos (XI (XI (XI
-    XH)))) :: ((Zpos (XO (XO (XO (XO XH))))) :: ((Zpos (XI (XO (XO (XO
-    XH))))) :: ((Zpos (XO (XI (XO (XO XH))))) :: ((Zpos (XI (XI (XO (XO
-    XH))))) :: ((Zpos (XO (XO (XI (XO XH))))) :: ((Zpos (XI (XO (XI (XO
-    XH))))) :: ((Zpos (XO (XI (XI (XO XH))))) :: ((Zpos (XI (XI (XI (XO
-    XH))))) :: ((Zpos (XO (XO (XO (XI XH))))) :: ((Zpos (XI (XO (XO (XI
-    XH))))) :: ((Zneg XH) :: ((Zneg XH) :: ((Zneg XH) :: ((Zneg XH) :: ((Zneg
-    XH) :: ((Zneg XH) :: ((Zpos (XO (XI (XO (XI XH))))) :: ((Zpos (XI (XI (XO
-    (XI XH))))) :: ((Zpos (XO (XO (XI (XI XH))))) :: ((Zpos (XI (XO (XI (XI
-    XH))))) :: ((Zpos (XO (XI (XI (XI XH))))) :: ((Zpos (XI (XI (XI (XI
-    XH))))) :: ((Zpos (XO (XO (XO (XO (XO XH)))))) :: ((Zpos (XI (XO (XO (XO
-    (XO XH)))))) :: ((Zpos (XO (XI (XO (XO (XO XH)))))) :: ((Zpos (XI (XI (XO
-    (XO (XO XH)))))) :: ((Zpos (XO (XO (XI (XO (XO XH)))))) :: ((Zpos (XI (XO
-    (XI (XO (XO XH)))))) :: ((Zpos (XO (XI (XI (XO (XO XH)))))) :: ((Zpos (XI
-    (XI (XI (XO (XO XH)))))) :: ((Zpos (XO (XO (XO (XI (XO XH)))))) :: ((Zpos
-    (XI (XO (XO (XI (XO XH)))))) :: ((Zpos (XO (XI (XO (XI (XO
-    XH)))))) :: ((Zpos (XI (XI (XO (XI (XO XH)))))) :: ((Zpos (XO (XO (XI (XI
-    (XO XH)))))) :: ((Zpos (XI (XO (XI (XI (XO XH)))))) :: ((Zpos (XO (XI (XI
-    (XI (XO XH)))))) :: ((Zpos (XI (XI (XI (XI (XO XH)))))) :: ((Zpos (XO (XO
-    (XO (XO (XI XH)))))) :: ((Zpos (XI (XO (XO (XO (XI XH)))))) :: ((Zpos (XO
-    (XI (XO (XO (XI XH)))))) :: ((Zpos (XI (XI (XO (XO (XI XH)))))) :: ((Zneg
-    XH) :: ((Zneg XH) :: ((Zneg XH) :: ((Zneg XH) :: ((Zneg XH) :: ((Zneg
-    XH) :: ((Zneg XH) :: ((Zneg XH) :: ((Zneg XH) :: ((Zneg XH) :: ((Zneg
-    XH) :: ((Zneg XH) :: ((Zneg XH) :: ((Zneg XH) :: ((Zneg XH) :: ((Zneg
-    XH) :: ((Zneg XH) :: ((Zneg XH) :: ((Zneg XH) :: ((Zneg XH) :: ((Zneg
-    XH) :: ((Zneg XH) :: ((Zneg XH) :: ((Zneg XH) :: ((Zneg XH) :: ((Zneg
-    XH) :: ((Zneg XH) :: ((Zneg XH) :: ((Zneg XH) :: ((Zneg XH) :: ((Zneg
-    XH) :: ((Zneg XH) :: ((Zneg XH) :: ((Zneg XH) :: ((Zneg XH) :: ((Zneg
-    XH) :: ((Zneg XH) :: ((Zneg XH) :: ((Zneg XH) :: ((Zneg XH) :: ((Zneg
-    XH) :: ((Zneg XH) :: ((Zneg XH) :: ((Zneg XH) :: ((Zneg XH) :: ((Zneg
-    XH) :: ((Zneg XH) :: ((Zneg XH) :: ((Zneg XH) :: ((Zneg XH) :: ((Zneg
-    XH) :: ((Zneg XH) :: ((Zneg XH) :: ((Zneg XH) :: ((Zneg XH) :: ((Zneg
-    XH) :: ((Zneg XH) :: ((Zneg XH) :: ((Zneg XH) :: ((Zneg XH) :: ((Zneg
-    XH) :: ((Zneg XH) :: ((Zneg XH) :: ((Zneg XH) :: ((Zneg XH) :: ((Zneg
-    XH) :: ((Zneg XH) :: ((Zneg XH) :: ((Zneg XH) :: ((Zneg XH) :: ((Zneg
-    XH) :: ((Zneg XH) :: ((Zneg XH) :: ((Zneg XH) :: ((Zneg XH) :: ((Zneg
-    XH) :: ((Zneg XH) :: ((Zneg XH) :: ((Zneg XH) :: ((Zneg XH) :: ((Zneg
-    XH) :: ((Zneg XH) :: ((Zneg XH) :: ((Zneg XH) :: ((Zneg XH) :: ((Zneg
-    XH) :: ((Zneg XH) :: ((Zneg XH) :: ((Zneg XH) :: ((Zneg XH) :: ((Zneg
-    XH) :: ((Zneg XH) :: ((Zneg XH) :: ((Zneg XH) :: ((Zneg XH) :: ((Zneg
-    XH) :: ((Zneg XH) :: ((Zneg XH) :: ((Zneg XH) :: ((Zneg XH) :: ((Zneg
-    XH) :: ((Zneg XH) :: ((Zneg XH) :: ((Zneg XH) :: ((Zneg XH) :: ((Zneg
-    XH) :: ((Zneg XH) :: ((Zneg XH) :: ((Zneg XH) :: ((Zneg XH) :: ((Zneg
-    XH) :: ((Zneg XH) :: ((Zneg XH) :: ((Zneg XH) :: ((Zneg XH) :: ((Zneg
-    XH) :: ((Zneg XH) :: ((Zneg XH) :: ((Zneg XH) :: ((Zneg XH) :: ((Zneg
-    XH) :: ((Zneg XH) :: ((Zneg XH) :: ((Zneg XH) :: ((Zneg XH) :: ((Zneg
-    XH) :: ((Zneg XH) :: ((Zneg XH) :: ((Zneg XH) :: ((Zneg XH) :: ((Zneg
-    XH) :: ((Zneg XH) :: ((Zneg
-    XH) :: [])))))))))))))))))))))))))))))))))))))))))))))))))))))))))))))))))))))))))))))))))))))))))))))))))))))))))))))))))))))))))))))))))))))))))))))))))))))))))))))))))))))))))))))))))))))))))))))))))))))))))))))))))))))))))))))))))))))))))))))))))))))))))))))))
-
-(** val enc_val0 : z **)
-
-let enc_val0 =
-  Z0
-
-(** val enc_valb0 : z **)
-
-let enc_valb0 =
-  Zneg (XO (XI XH))
-
-(** val enc_shift : z **)
-
-let enc_shift =
-  Zpos (XO (XO (XO XH)))
-
-(** val enc_valb_add : z **)
-
-let enc_valb_add =
-  Zpos (XO (XO (XO XH)))
-
-(** val enc_loop_bound : z **)
-
-let enc_loop_bound =
-  Z0
-
-(** val enc_mask : z **)
-
-let enc_mask =
-  Zpos (XI (XI (XI (XI (XI XH)))))
-
-(** val enc_valb_sub : z **)
-
-let enc_valb_sub =
-  Zpos (XO (XI XH))
-
-(** val enc_tail_bound : z **)
-
-let enc_tail_bound =
-  Zneg (XO (XI XH))
-
-(** val enc_tail_shl : z **)
-
-let enc_tail_shl =
-  Zpos (XO (XO (XO XH)))
-
-(** val enc_tail_add : z **)
-
-let enc_tail_add =
-  Zpos (XO (XO (XO XH)))
-
-(** val enc_tail_mask : z **)
-
-let enc_tail_mask =
-  Zpos (XI (XI (XI (XI (XI XH)))))
-
-(** val enc_pad_mod : z **)
-
-let enc_pad_mod =
-  Zpos (XO (XO XH))
-
-(** val pad_char : z **)
-
-let pad_char =
-  Zpos (XI (XO (XI (XI (XI XH)))))
-
-(** val dec_val0 : z **)
-
-let dec_val0 =
-  Z0
-
-(** val dec_valb0 : z **)
-
-let dec_valb0 =
-  Zneg (XO (XO (XO XH)))
-
-(** val dec_pad_char : z **)
-
-let dec_pad_char =
-  Zpos (XI (XO (XI (XI (XI XH)))))
-
-(** val dec_reject : z **)
-
-let dec_reject =
-  Zneg XH
-
-(** val dec_shift : z **)
-
-let dec_shift =
-  Zpos (XO (XI XH))
-
-(** val dec_valb_add : z **)
-
-let dec_valb_add =
-  Zpos (XO (XI XH))
-
-(** val dec_out_bound : z **)
-
-let dec_out_bound =
-  Z0
-
-(** val dec_mask : z **)
-
-let dec_mask =
-  Zpos (XI (XI (XI (XI (XI (XI (XI XH)))))))
-
-(** val dec_valb_sub : z **)
-
-let dec_valb_sub =
-  Zpos (XO (XO (XO XH)))
-
-(** val tbl : z -> z **)
-
-let tbl i =
-  nth (Z.to_nat i) tABLE Z0
-
-(** val inv : z -> z **)
-
-let inv c =
-  nth (Z.to_nat c) iNV_TABLE Z0
-
-(** val sel : z -> z -> z -> z **)
-
-let sel val0 valb mask =
-  Z.coq_land (Z.shiftr val0 valb) mask
-
-(** val enc_drain : nat -> z -> z -> (z list * z) option **)
-
-let rec enc_drain fuel val0 valb =
-  if Z.geb valb enc_loop_bound
-  then (match fuel with
-        | O -> None
-        | S f ->
-          (match enc_drain f val0 (Z.sub valb enc_valb_sub) with
-           | Some p ->
-             let (o, vb) = p in
-             Some (((tbl (sel val0 valb enc_mask)) :: o), vb)
-           | None -> None))
-  else Some ([], valb)
-
-(** val drain_fuel : nat **)
-
-let drain_fuel =
-  S (S (S (S (S (S (S (S O)))))))
-
-(** val enc_bytes : z list -> z -> z -> ((z list * z) * z) option **)
-
-let rec enc_bytes bs val0 valb =
+let rec split_at d bs cur =
   match bs with
-  | [] -> Some (([], val0), valb)
-  | c :: r ->
-    let val' = wrap32 (Z.add (Z.mul val0 (Z.pow (Zpos (XO XH)) enc_shift)) c)
-    in
-    (match enc_drain drain_fuel val' (Z.add valb enc_valb_add) with
-     | Some p ->
-       let (o, vb) = p in
-       (match enc_bytes r val' vb with
-        | Some p0 ->
-          let (p1, b) = p0 in let (o2, v) = p1 in Some (((app o o2), v), b)
-        | None -> None)
-     | None -> None)
+  | [] -> ([], (rev cur))
+  | b :: r ->
+    if Z.eqb b d
+    then let (rs, t) = split_at d r [] in (((rev cur) :: rs), t)
+    else split_at d r (b :: cur)
 
-(** val enc_pad : nat -> z list **)
+(** val strip_cr : z list -> z list **)
 
-let enc_pad n0 =
-  repeat pad_char
-    (Z.to_nat
-      (Z.modulo (Z.sub enc_pad_mod (Z.modulo (Z.of_nat n0) enc_pad_mod))
-        enc_pad_mod))
+let strip_cr l =
+  match rev l with
+  | [] -> l
+  | z0 :: r ->
+    (match z0 with
+     | Zpos p ->
+       (match p with
+        | XI p0 ->
+          (match p0 with
+           | XO p1 ->
+             (match p1 with
+              | XI p2 -> (match p2 with
+                          | XH -> rev r
+                          | _ -> l)
+              | _ -> l)
+           | _ -> l)
+        | _ -> l)
+     | _ -> l)
 
-(** val base64_encode : z list -> z list option **)
+(** val records : z -> bool -> z list -> z list list **)
 
-let base64_encode bs =
-  match enc_bytes bs enc_val0 enc_valb0 with
-  | Some p ->
-    let (p0, valb) = p in
-    let (o, val0) = p0 in
-    let o' =
-      if Z.gtb valb enc_tail_bound
-      then app o
-             ((tbl
-                (sel
-                  (wrap32 (Z.mul val0 (Z.pow (Zpos (XO XH)) enc_tail_shl)))
-                  (Z.add valb enc_tail_add) enc_tail_mask)) :: [])
-      else o
-    in
-    Some (app o' (enc_pad (length o')))
-  | None -> None
+let records d cr bs =
+  let (rs, t) = split_at d bs [] in
+  app (map (if cr then strip_cr else (fun x -> x)) rs)
+    (match t with
+     | [] -> []
+     | _ :: _ -> t :: [])
 
-type dres =
-| DOk of z list
-| DBadChar of z
-| DLengthError
+(** val fp_init_add : nat **)
 
-(** val count_padding_rev : z list -> nat **)
+let fp_init_add =
+  S O
 
-let rec count_padding_rev = function
-| [] -> O
-| c :: r' ->
-  if Z.eqb c (Zpos (XI (XO (XI (XI (XI XH))))))
-  then S (count_padding_rev r')
-  else O
+(** val fp_init_min_pages : nat **)
 
-(** val count_padding : z list -> nat **)
+let fp_init_min_pages =
+  S (S O)
 
-let count_padding cs =
-  count_padding_rev (rev cs)
+(** val fp_mmap_grow : nat **)
 
-(** val dec_loop : z list -> z -> z -> dres **)
+let fp_mmap_grow =
+  S (S O)
 
-let rec dec_loop cs val0 valb =
-  match cs with
-  | [] -> DOk []
-  | c :: r ->
-    if Z.eqb c dec_pad_char
-    then DOk []
-    else if Z.eqb (inv c) dec_reject
-         then DBadChar c
-         else let val' =
-                wrap32
-                  (Z.add (Z.mul val0 (Z.pow (Zpos (XO XH)) dec_shift))
-                    (inv c))
-              in
-              let valb' = Z.add valb dec_valb_add in
-              if Z.geb valb' dec_out_bound
-              then (match dec_loop r val' (Z.sub valb' dec_valb_sub) with
-                    | DOk o -> DOk ((sel val' valb' dec_mask) :: o)
-                    | x -> x)
-              else dec_loop r val' valb'
+(** val fp_read_grow : nat **)
 
-(** val base64_decode : z list -> dres **)
+let fp_read_grow =
+  S (S O)
 
-let base64_decode cs =
-  if Z.ltb
-       (Z.div (Z.mul (Z.of_nat (length cs)) (Zpos (XI XH))) (Zpos (XO (XO
-         XH)))) (Z.of_nat (count_padding cs))
-  then DLengthError
-  else dec_loop cs dec_val0 dec_valb0
+(** val fp_eof_read_return : nat **)
 
-(** val b64_alphabet : z list **)
+let fp_eof_read_return =
+  O
 
-let b64_alphabet =
-  map Z.of_nat
-    (app
-      (seq (S (S (S (S (S (S (S (S (S (S (S (S (S (S (S (S (S (S (S (S (S (S
-        (S (S (S (S (S (S (S (S (S (S (S (S (S (S (S (S (S (S (S (S (S (S (S
-        (S (S (S (S (S (S (S (S (S (S (S (S (S (S (S (S (S (S (S (S
-        O))))))))))))))))))))))))))))))))))))))))))))))))))))))))))))))))) (S
-        (S (S (S (S (S (S (S (S (S (S (S (S (S (S (S (S (S (S (S (S (S (S (S
-        (S (S O)))))))))))))))))))))))))))
-      (app
-        (seq (S (S (S (S (S (S (S (S (S (S (S (S (S (S (S (S (S (S (S (S (S
-          (S (S (S (S (S (S (S (S (S (S (S (S (S (S (S (S (S (S (S (S (S (S
-          (S (S (S (S (S (S (S (S (S (S (S (S (S (S (S (S (S (S (S (S (S (S
-          (S (S (S (S (S (S (S (S (S (S (S (S (S (S (S (S (S (S (S (S (S (S
-          (S (S (S (S (S (S (S (S (S (S
-          O)))))))))))))))))))))))))))))))))))))))))))))))))))))))))))))))))))))))))))))))))))))))))))))))))
-          (S (S (S (S (S (S (S (S (S (S (S (S (S (S (S (S (S (S (S (S (S (S
-          (S (S (S (S O)))))))))))))))))))))))))))
-        (app
-          (seq (S (S (S (S (S (S (S (S (S (S (S (S (S (S (S (S (S (S (S (S (S
-            (S (S (S (S (S (S (S (S (S (S (S (S (S (S (S (S (S (S (S (S (S (S
-            (S (S (S (S (S O))))))))))))))))))))))))))))))))))))))))))))))))
-            (S (S (S (S (S (S (S (S (S (S O))))))))))) ((S (S (S (S (S (S (S
-          (S (S (S (S (S (S (S (S (S (S (S (S (S (S (S (S (S (S (S (S (S (S
-          (S (S (S (S (S (S (S (S (S (S (S (S (S (S
-          O))))))))))))))))))))))))))))))))))))))))))) :: ((S (S (S (S (S (S
-          (S (S (S (S (S (S (S (S (S (S (S (S (S (S (S (S (S (S (S (S (S (S
-          (S (S (S (S (S (S (S (S (S (S (S (S (S (S (S (S (S (S (S
-          O))))))))))))))))))))))))))))))))))))))))))))))) :: [])))))
+(** val fp_cr_byte : z **)
 
-(** val alpha : z -> z **)
+let fp_cr_byte =
+  Zpos (XI (XO (XI XH)))
 
-let alpha i =
-  nth (Z.to_nat i) b64_alphabet Z0
+(** val fp_cr_subtract : nat **)
 
-(** val rfc4648 : z list -> z list **)
+let fp_cr_subtract =
+  S O
 
-let rec rfc4648 = function
-| [] -> []
-| b0 :: l ->
-  (match l with
-   | [] ->
-     (alpha (Z.div b0 (Zpos (XO (XO XH))))) :: ((alpha
-                                                  (Z.mul
-                                                    (Z.modulo b0 (Zpos (XO
-                                                      (XO XH)))) (Zpos (XO
-                                                    (XO (XO (XO XH))))))) :: ((Zpos
-       (XI (XO (XI (XI (XI XH)))))) :: ((Zpos (XI (XO (XI (XI (XI
-       XH)))))) :: [])))
-   | b1 :: l0 ->
-     (match l0 with
-      | [] ->
-        (alpha (Z.div b0 (Zpos (XO (XO XH))))) :: ((alpha
-                                                     (Z.add
-                                                       (Z.mul
-                                                         (Z.modulo b0 (Zpos
-                                                           (XO (XO XH))))
-                                                         (Zpos (XO (XO (XO
-                                                         (XO XH))))))
-                                                       (Z.div b1 (Zpos (XO
-                                                         (XO (XO (XO XH)))))))) :: (
-          (alpha
-            (Z.mul (Z.modulo b1 (Zpos (XO (XO (XO (XO XH)))))) (Zpos (XO (XO
-              XH))))) :: ((Zpos (XI (XO (XI (XI (XI XH)))))) :: [])))
-      | b2 :: r ->
-        app
-          ((alpha (Z.div b0 (Zpos (XO (XO XH))))) :: ((alpha
-                                                        (Z.add
-                                                          (Z.mul
-                                                            (Z.modulo b0
-                                                              (Zpos (XO (XO
-                                                              XH)))) (Zpos
-                                                            (XO (XO (XO (XO
-                                                            XH))))))
-                                                          (Z.div b1 (Zpos (XO
-                                                            (XO (XO (XO
-                                                            XH)))))))) :: (
-          (alpha
-            (Z.add
-              (Z.mul (Z.modulo b1 (Zpos (XO (XO (XO (XO XH)))))) (Zpos (XO
-                (XO XH)))) (Z.div b2 (Zpos (XO (XO (XO (XO (XO (XO XH)))))))))) :: (
-          (alpha (Z.modulo b2 (Zpos (XO (XO (XO (XO (XO (XO XH))))))))) :: []))))
-          (rfc4648 r)))
+(** val fp_cr_else : nat **)
 
-(** val strip_padding : z list -> z list **)
+let fp_cr_else =
+  O
 
-let strip_padding cs =
-  rev (skipn (count_padding cs) (rev cs))
+(** val rc_magic_size : nat **)
+
+let rc_magic_size =
+  S (S (S (S (S (S O)))))
+
+(** val rc_magic_gz : z list **)
+
+let rc_magic_gz =
+  (Zpos (XI (XI (XI (XI XH))))) :: ((Zpos (XI (XI (XO (XI (XO (XO (XO
+    XH)))))))) :: [])
+
+(** val rc_magic_bz : z list **)
+
+let rc_magic_bz =
+  (Zpos (XO (XI (XO (XO (XO (XO XH))))))) :: ((Zpos (XO (XI (XO (XI (XI (XO
+    XH))))))) :: ((Zpos (XO (XO (XO (XI (XO (XI XH))))))) :: []))
+
+(** val rc_magic_xz : z list **)
+
+let rc_magic_xz =
+  (Zpos (XI (XO (XI (XI (XI (XI (XI XH)))))))) :: ((Zpos (XI (XI (XI (XO (XI
+    XH)))))) :: ((Zpos (XO (XI (XO (XI (XI (XI XH))))))) :: ((Zpos (XO (XO
+    (XO (XI (XI (XO XH))))))) :: ((Zpos (XO (XI (XO (XI (XI (XO
+    XH))))))) :: (Z0 :: [])))))
+
+type outcome =
+| Full
+| Short of nat
+| Eintr
+| Err of z
+
+type os = { os_src : z list; os_script : outcome list;
+            os_trace : (nat * z) list; os_sink : z list }
+
+(** val os_trace : os -> (nat * z) list **)
+
+let os_trace o =
+  o.os_trace
+
+(** val os_init : z list -> outcome list -> os **)
+
+let os_init src script =
+  { os_src = src; os_script = script; os_trace = []; os_sink = [] }
+
+type sysres =
+| SData of z list
+| SEintr
+| SErr of z
+
+(** val granted : outcome -> nat -> nat **)
+
+let granted oc n0 =
+  match oc with
+  | Short k -> Nat.min n0 (Nat.max (S O) k)
+  | _ -> n0
+
+(** val next_outcome : os -> outcome * outcome list **)
+
+let next_outcome o =
+  match o.os_script with
+  | [] -> (Full, [])
+  | oc :: r -> (oc, r)
+
+(** val sys_read : nat -> os -> sysres * os **)
+
+let sys_read n0 o =
+  let (oc, rest) = next_outcome o in
+  (match oc with
+   | Eintr ->
+     (SEintr, { os_src = o.os_src; os_script = rest; os_trace = ((n0, (Zneg
+       XH)) :: o.os_trace); os_sink = o.os_sink })
+   | Err e ->
+     ((SErr e), { os_src = o.os_src; os_script = rest; os_trace = ((n0, (Zneg
+       (XO XH))) :: o.os_trace); os_sink = o.os_sink })
+   | _ ->
+     let m = granted oc n0 in
+     let l = firstn m o.os_src in
+     ((SData l), { os_src = (skipn m o.os_src); os_script = rest; os_trace =
+     ((n0, (Z.of_nat (length l))) :: o.os_trace); os_sink = o.os_sink }))
+
+type ioerr =
+| EFuel
+| EErrno of z
+| EEndOfFile
+| EWriteZero
+| ECompressed
+
+type 'a res =
+| Ok of 'a
+| Fail of ioerr
+
+(** val eintr_fuel : os -> nat **)
+
+let eintr_fuel o =
+  S (length o.os_script)
+
+(** val partial_read_loop : nat -> nat -> os -> z list res * os **)
+
+let rec partial_read_loop fuel amount o =
+  match fuel with
+  | O -> ((Fail EFuel), o)
+  | S f ->
+    let (s, o') = sys_read amount o in
+    (match s with
+     | SData l -> ((Ok l), o')
+     | SEintr -> partial_read_loop f amount o'
+     | SErr e -> ((Fail (EErrno e)), o'))
+
+(** val partial_read : nat -> os -> z list res * os **)
+
+let partial_read amount o =
+  partial_read_loop (eintr_fuel o) amount o
+
+(** val read_or_eof_loop : nat -> nat -> z list -> os -> z list res * os **)
+
+let rec read_or_eof_loop fuel remaining acc o =
+  match remaining with
+  | O -> ((Ok acc), o)
+  | S _ ->
+    (match fuel with
+     | O -> ((Fail EFuel), o)
+     | S f ->
+       let (r, o') = partial_read remaining o in
+       (match r with
+        | Ok l ->
+          (match l with
+           | [] -> ((Ok acc), o')
+           | _ :: _ ->
+             read_or_eof_loop f (sub remaining (length l)) (app acc l) o')
+        | Fail e -> ((Fail e), o')))
+
+(** val read_or_eof : nat -> os -> z list res * os **)
+
+let read_or_eof amount o =
+  read_or_eof_loop (S amount) amount [] o
+
+type rcstate =
+| RcHeader of z list
+| RcFd
+| RcComplete
+| RcIStream
+
+(** val is_prefix : z list -> z list -> bool **)
+
+let rec is_prefix p l =
+  match p with
+  | [] -> true
+  | a :: p' ->
+    (match l with
+     | [] -> false
+     | b :: l' -> (&&) (Z.eqb a b) (is_prefix p' l'))
+
+(** val detect_magic : z list -> bool **)
+
+let detect_magic h =
+  (||) ((||) (is_prefix rc_magic_gz h) (is_prefix rc_magic_bz h))
+    (is_prefix rc_magic_xz h)
+
+(** val read_factory : os -> rcstate res * os **)
+
+let read_factory o =
+  let (r, o') = read_or_eof rc_magic_size o in
+  (match r with
+   | Ok h ->
+     (match h with
+      | [] -> ((Ok RcComplete), o')
+      | _ :: _ ->
+        if detect_magic h
+        then ((Fail ECompressed), o')
+        else ((Ok (RcHeader h)), o'))
+   | Fail e -> ((Fail e), o'))
+
+(** val rc_read : nat -> rcstate -> os -> (z list res * rcstate) * os **)
+
+let rc_read amount rc o =
+  match rc with
+  | RcHeader h ->
+    let l = firstn amount h in
+    (((Ok l),
+    (match skipn amount h with
+     | [] -> RcFd
+     | z0 :: l0 -> RcHeader (z0 :: l0))), o)
+  | RcFd -> let (r, o') = partial_read amount o in ((r, RcFd), o')
+  | RcComplete -> (((Ok []), RcComplete), o)
+  | RcIStream ->
+    (((Ok (firstn amount o.os_src)), RcIStream), { os_src =
+      (skipn amount o.os_src); os_script = o.os_script; os_trace =
+      o.os_trace; os_sink = o.os_sink })
+
+type fp = { fp_buf : z list; fp_pos : nat; fp_cap : nat; fp_at_end : 
+            bool; fp_moff : nat; fp_fallback : bool; fp_mapped : bool;
+            fp_rc : rcstate; fp_os : os; fp_file : z list; fp_page : 
+            nat; fp_maps : (nat * nat) list }
+
+(** val fp_os : fp -> os **)
+
+let fp_os f =
+  f.fp_os
+
+(** val fp_maps : fp -> (nat * nat) list **)
+
+let fp_maps f =
+  f.fp_maps
+
+(** val set_pos : fp -> nat -> fp **)
+
+let set_pos s p =
+  { fp_buf = s.fp_buf; fp_pos = p; fp_cap = s.fp_cap; fp_at_end =
+    s.fp_at_end; fp_moff = s.fp_moff; fp_fallback = s.fp_fallback;
+    fp_mapped = s.fp_mapped; fp_rc = s.fp_rc; fp_os = s.fp_os; fp_file =
+    s.fp_file; fp_page = s.fp_page; fp_maps = s.fp_maps }
+
+(** val initial_cap : nat -> nat -> nat **)
+
+let initial_cap page min_buffer =
+  mul page
+    (Nat.max (add (Nat.div min_buffer page) fp_init_add) fp_init_min_pages)
+
+(** val read_shift : fp -> fp res **)
+
+let read_shift s =
+  if Nat.eqb s.fp_pos (length s.fp_buf)
+  then let p = ([], O) in
+       let moff1 = add s.fp_moff (length s.fp_buf) in
+       let (buf1, pos1) = p in
+       let already = length buf1 in
+       if Nat.eqb already s.fp_cap
+       then if Nat.eqb pos1 O
+            then let p0 = (buf1, pos1) in
+                 let cap2 = mul s.fp_cap fp_read_grow in
+                 let (buf2, pos2) = p0 in
+                 let (p1, o') =
+                   rc_read (sub cap2 (length buf2)) s.fp_rc s.fp_os
+                 in
+                 let (r, rc') = p1 in
+                 (match r with
+                  | Ok l ->
+                    Ok { fp_buf = (app buf2 l); fp_pos = pos2; fp_cap = cap2;
+                      fp_at_end =
+                      (if Nat.eqb (length l) fp_eof_read_return
+                       then true
+                       else s.fp_at_end); fp_moff = moff1; fp_fallback =
+                      s.fp_fallback; fp_mapped = s.fp_mapped; fp_rc = rc';
+                      fp_os = o'; fp_file = s.fp_file; fp_page = s.fp_page;
+                      fp_maps = s.fp_maps }
+                  | Fail e -> Fail e)
+            else let p0 = ((skipn pos1 buf1), O) in
+                 let cap2 = s.fp_cap in
+                 let (buf2, pos2) = p0 in
+                 let (p1, o') =
+                   rc_read (sub cap2 (length buf2)) s.fp_rc s.fp_os
+                 in
+                 let (r, rc') = p1 in
+                 (match r with
+                  | Ok l ->
+                    Ok { fp_buf = (app buf2 l); fp_pos = pos2; fp_cap = cap2;
+                      fp_at_end =
+                      (if Nat.eqb (length l) fp_eof_read_return
+                       then true
+                       else s.fp_at_end); fp_moff = moff1; fp_fallback =
+                      s.fp_fallback; fp_mapped = s.fp_mapped; fp_rc = rc';
+                      fp_os = o'; fp_file = s.fp_file; fp_page = s.fp_page;
+                      fp_maps = s.fp_maps }
+                  | Fail e -> Fail e)
+       else let p0 = (buf1, pos1) in
+            let cap2 = s.fp_cap in
+            let (buf2, pos2) = p0 in
+            let (p1, o') = rc_read (sub cap2 (length buf2)) s.fp_rc s.fp_os in
+            let (r, rc') = p1 in
+            (match r with
+             | Ok l ->
+               Ok { fp_buf = (app buf2 l); fp_pos = pos2; fp_cap = cap2;
+                 fp_at_end =
+                 (if Nat.eqb (length l) fp_eof_read_return
+                  then true
+                  else s.fp_at_end); fp_moff = moff1; fp_fallback =
+                 s.fp_fallback; fp_mapped = s.fp_mapped; fp_rc = rc'; fp_os =
+                 o'; fp_file = s.fp_file; fp_page = s.fp_page; fp_maps =
+                 s.fp_maps }
+             | Fail e -> Fail e)
+  else let p = (s.fp_buf, s.fp_pos) in
+       let moff1 = s.fp_moff in
+       let (buf1, pos1) = p in
+       let already = length buf1 in
+       if Nat.eqb already s.fp_cap
+       then if Nat.eqb pos1 O
+            then let p0 = (buf1, pos1) in
+                 let cap2 = mul s.fp_cap fp_read_grow in
+                 let (buf2, pos2) = p0 in
+                 let (p1, o') =
+                   rc_read (sub cap2 (length buf2)) s.fp_rc s.fp_os
+                 in
+                 let (r, rc') = p1 in
+                 (match r with
+                  | Ok l ->
+                    Ok { fp_buf = (app buf2 l); fp_pos = pos2; fp_cap = cap2;
+                      fp_at_end =
+                      (if Nat.eqb (length l) fp_eof_read_return
+                       then true
+                       else s.fp_at_end); fp_moff = moff1; fp_fallback =
+                      s.fp_fallback; fp_mapped = s.fp_mapped; fp_rc = rc';
+                      fp_os = o'; fp_file = s.fp_file; fp_page = s.fp_page;
+                      fp_maps = s.fp_maps }
+                  | Fail e -> Fail e)
+            else let p0 = ((skipn pos1 buf1), O) in
+                 let cap2 = s.fp_cap in
+                 let (buf2, pos2) = p0 in
+                 let (p1, o') =
+                   rc_read (sub cap2 (length buf2)) s.fp_rc s.fp_os
+                 in
+                 let (r, rc') = p1 in
+                 (match r with
+                  | Ok l ->
+                    Ok { fp_buf = (app buf2 l); fp_pos = pos2; fp_cap = cap2;
+                      fp_at_end =
+                      (if Nat.eqb (length l) fp_eof_read_return
+                       then true
+                       else s.fp_at_end); fp_moff = moff1; fp_fallback =
+                      s.fp_fallback; fp_mapped = s.fp_mapped; fp_rc = rc';
+                      fp_os = o'; fp_file = s.fp_file; fp_page = s.fp_page;
+                      fp_maps = s.fp_maps }
+                  | Fail e -> Fail e)
+       else let p0 = (buf1, pos1) in
+            let cap2 = s.fp_cap in
+            let (buf2, pos2) = p0 in
+            let (p1, o') = rc_read (sub cap2 (length buf2)) s.fp_rc s.fp_os in
+            let (r, rc') = p1 in
+            (match r with
+             | Ok l ->
+               Ok { fp_buf = (app buf2 l); fp_pos = pos2; fp_cap = cap2;
+                 fp_at_end =
+                 (if Nat.eqb (length l) fp_eof_read_return
+                  then true
+                  else s.fp_at_end); fp_moff = moff1; fp_fallback =
+                 s.fp_fallback; fp_mapped = s.fp_mapped; fp_rc = rc'; fp_os =
+                 o'; fp_file = s.fp_file; fp_page = s.fp_page; fp_maps =
+                 s.fp_maps }
+             | Fail e -> Fail e)
+
+(** val transition_to_read : fp -> fp res **)
+
+let transition_to_read s =
+  let (r, o') = read_factory s.fp_os in
+  (match r with
+   | Ok rc ->
+     Ok { fp_buf = []; fp_pos = O; fp_cap = s.fp_cap; fp_at_end =
+       s.fp_at_end; fp_moff = s.fp_moff; fp_fallback = true; fp_mapped =
+       s.fp_mapped; fp_rc = rc; fp_os = o'; fp_file = s.fp_file; fp_page =
+       s.fp_page; fp_maps = s.fp_maps }
+   | Fail e -> Fail e)
+
+(** val mmap_shift : fp -> fp res **)
+
+let mmap_shift s =
+  let desired_begin = add s.fp_pos s.fp_moff in
+  let ignore = Nat.modulo desired_begin s.fp_page in
+  let cap' =
+    if (&&) (Nat.eqb s.fp_pos ignore) s.fp_mapped
+    then mul s.fp_cap fp_mmap_grow
+    else s.fp_cap
+  in
+  let mapped_offset = sub desired_begin ignore in
+  let total = length s.fp_file in
+  if Nat.leb (sub total mapped_offset) cap'
+  then let at_end' = true in
+       let mapped_size = sub total mapped_offset in
+       if Nat.eqb mapped_size O
+       then let o = s.fp_os in
+            let o1 =
+              if Nat.eqb desired_begin O
+              then o
+              else { os_src = (skipn desired_begin s.fp_file); os_script =
+                     o.os_script; os_trace = o.os_trace; os_sink = o.os_sink }
+            in
+            transition_to_read { fp_buf = []; fp_pos = O; fp_cap = cap';
+              fp_at_end = false; fp_moff = s.fp_moff; fp_fallback = false;
+              fp_mapped = s.fp_mapped; fp_rc = s.fp_rc; fp_os = o1; fp_file =
+              s.fp_file; fp_page = s.fp_page; fp_maps = ((mapped_offset,
+              mapped_size) :: s.fp_maps) }
+       else Ok { fp_buf =
+              (firstn mapped_size (skipn mapped_offset s.fp_file)); fp_pos =
+              ignore; fp_cap = cap'; fp_at_end = at_end'; fp_moff =
+              mapped_offset; fp_fallback = false; fp_mapped = true; fp_rc =
+              s.fp_rc; fp_os = s.fp_os; fp_file = s.fp_file; fp_page =
+              s.fp_page; fp_maps = ((mapped_offset,
+              mapped_size) :: s.fp_maps) }
+  else let at_end' = s.fp_at_end in
+       if Nat.eqb cap' O
+       then let o = s.fp_os in
+            let o1 =
+              if Nat.eqb desired_begin O
+              then o
+              else { os_src = (skipn desired_begin s.fp_file); os_script =
+                     o.os_script; os_trace = o.os_trace; os_sink = o.os_sink }
+            in
+            transition_to_read { fp_buf = []; fp_pos = O; fp_cap = cap';
+              fp_at_end = false; fp_moff = s.fp_moff; fp_fallback = false;
+              fp_mapped = s.fp_mapped; fp_rc = s.fp_rc; fp_os = o1; fp_file =
+              s.fp_file; fp_page = s.fp_page; fp_maps = ((mapped_offset,
+              cap') :: s.fp_maps) }
+       else Ok { fp_buf = (firstn cap' (skipn mapped_offset s.fp_file));
+              fp_pos = ignore; fp_cap = cap'; fp_at_end = at_end'; fp_moff =
+              mapped_offset; fp_fallback = false; fp_mapped = true; fp_rc =
+              s.fp_rc; fp_os = s.fp_os; fp_file = s.fp_file; fp_page =
+              s.fp_page; fp_maps = ((mapped_offset, cap') :: s.fp_maps) }
+
+(** val shift : fp -> fp res **)
+
+let shift s =
+  if s.fp_at_end
+  then Fail EEndOfFile
+  else (match if s.fp_fallback then Ok s else mmap_shift s with
+        | Ok s1 -> if s1.fp_fallback then read_shift s1 else Ok s1
+        | Fail e -> Fail e)
+
+(** val fp_open_read : nat -> os -> fp res **)
+
+let fp_open_read cap o =
+  match transition_to_read { fp_buf = []; fp_pos = O; fp_cap = cap;
+          fp_at_end = false; fp_moff = O; fp_fallback = false; fp_mapped =
+          false; fp_rc = RcFd; fp_os = o; fp_file = []; fp_page = (S O);
+          fp_maps = [] } with
+  | Ok s -> shift s
+  | Fail e -> Fail e
+
+(** val fp_open_istream : nat -> z list -> fp **)
+
+let fp_open_istream cap src =
+  { fp_buf = []; fp_pos = O; fp_cap = cap; fp_at_end = false; fp_moff = O;
+    fp_fallback = true; fp_mapped = false; fp_rc = RcIStream; fp_os =
+    (os_init src []); fp_file = []; fp_page = (S O); fp_maps = [] }
+
+(** val fp_open_file :
+    nat -> nat -> z list -> nat -> outcome list -> fp res **)
+
+let fp_open_file page cap file off script =
+  match shift { fp_buf = []; fp_pos = O; fp_cap = cap; fp_at_end = false;
+          fp_moff = off; fp_fallback = false; fp_mapped = false; fp_rc =
+          RcFd; fp_os = (os_init (skipn off file) script); fp_file = file;
+          fp_page = page; fp_maps = [] } with
+  | Ok s ->
+    if (&&)
+         ((&&) (negb s.fp_fallback)
+           (Nat.leb rc_magic_size (sub (length s.fp_buf) s.fp_pos)))
+         (detect_magic (firstn rc_magic_size (skipn s.fp_pos s.fp_buf)))
+    then Fail ECompressed
+    else Ok s
+  | Fail e -> Fail e
+
+(** val find_idx : z -> z list -> nat option **)
+
+let rec find_idx d = function
+| [] -> None
+| b :: r ->
+  if Z.eqb b d then Some O else option_map (fun x -> S x) (find_idx d r)
+
+type rl =
+| RlLine of z list
+| RlEOF
+| RlFail of ioerr
+
+(** val read_line_loop : nat -> z -> bool -> nat -> fp -> rl * fp **)
+
+let rec read_line_loop fuel d cr skip s =
+  match fuel with
+  | O -> ((RlFail EFuel), s)
+  | S f ->
+    (match find_idx d (skipn (add s.fp_pos skip) s.fp_buf) with
+     | Some j ->
+       let i = add (add s.fp_pos skip) j in
+       let subtract_cr =
+         if (&&) ((&&) cr (Nat.ltb s.fp_pos i))
+              (Z.eqb (nth (sub i (S O)) s.fp_buf Z0) fp_cr_byte)
+         then fp_cr_subtract
+         else fp_cr_else
+       in
+       ((RlLine
+       (firstn (sub (sub i s.fp_pos) subtract_cr) (skipn s.fp_pos s.fp_buf))),
+       (set_pos s (S i)))
+     | None ->
+       if s.fp_at_end
+       then if Nat.eqb s.fp_pos (length s.fp_buf)
+            then (RlEOF, s)
+            else ((RlLine (skipn s.fp_pos s.fp_buf)),
+                   (set_pos s (length s.fp_buf)))
+       else (match shift s with
+             | Ok s' ->
+               read_line_loop f d cr (sub (length s.fp_buf) s.fp_pos) s'
+             | Fail e -> ((RlFail e), s)))
+
+(** val pending : fp -> nat **)
+
+let pending s =
+  add
+    (add (match s.fp_rc with
+          | RcHeader h -> length h
+          | _ -> O) (length s.fp_os.os_src)) (length s.fp_file)
+
+(** val line_fuel : fp -> nat **)
+
+let line_fuel s =
+  add (add (pending s) rc_magic_size) (S (S (S (S O))))
+
+(** val read_line : z -> bool -> fp -> rl * fp **)
+
+let read_line d cr s =
+  read_line_loop (line_fuel s) d cr O s
+
+(** val read_all_loop : nat -> z -> bool -> fp -> z list list res * fp **)
+
+let rec read_all_loop n0 d cr s =
+  match n0 with
+  | O -> ((Fail EFuel), s)
+  | S n' ->
+    let (r, s') = read_line d cr s in
+    (match r with
+     | RlLine l ->
+       let (r0, s'') = read_all_loop n' d cr s' in
+       (match r0 with
+        | Ok ls -> ((Ok (l :: ls)), s'')
+        | Fail e -> ((Fail e), s''))
+     | RlEOF -> ((Ok []), s')
+     | RlFail e -> ((Fail e), s'))
+
+(** val read_all : z -> bool -> fp -> z list list res * fp **)
+
+let read_all d cr s =
+  read_all_loop (add (add (pending s) (length s.fp_buf)) (S (S O))) d cr s
